@@ -1135,7 +1135,7 @@ pub fn emit_rust(all: &[Schema], shard: usize, shards: usize) -> String {
         o.push_str(&format!(
             "fn enc_{i}(g: &GenVal) -> Result<Vec<u8>, String> {{ let v = make_{i}(g); minicbor::to_vec(&v).map_err(|e| e.to_string()) }}\n\
              fn len_{i}(g: &GenVal) -> usize {{ let v = make_{i}(g); minicbor::len(&v) }}\n\
-             fn slice_{i}(g: &GenVal, buf: &mut [u8]) -> Result<usize, bool> {{ let v = make_{i}(g); let cap = buf.len(); let mut s: &mut [u8] = buf; match minicbor::encode(&v, &mut s) {{ Ok(()) => Ok(cap - s.len()), Err(e) => Err(e.is_write()) }} }}\n\
+             fn slice_{i}(g: &GenVal, buf: &mut [u8]) -> (Result<(), bool>, usize) {{ let v = make_{i}(g); let cap = buf.len(); let mut s: &mut [u8] = buf; let r = minicbor::encode(&v, &mut s); let w = cap - s.len(); (r.map_err(|e| e.is_write()), w) }}\n\
              fn dec_{i}(b: &[u8]) -> derive_rt::DecRes {{ let mut d = minicbor::Decoder::new(b); match d.decode::<{t}>() {{ Ok(v) => {{ let ok = borrow_{i}(&v, b); derive_rt::DecRes::Ok(view_{i}(&v), d.position(), ok) }} Err(e) => derive_rt::DecRes::Err(derive_rt::classify(&e), d.position()) }} }}\n\n",
             i = s.id,
             t = tu_anon
@@ -1237,6 +1237,23 @@ fn compat_family(b: &mut Builder) -> Vec<Pair> {
             // two edits: also add an optional field at the gap
             let n2 = mk(b, vec![fld(0, FTy::OptNested(*e)), fld(1, FTy::OptStr), fld(2, FTy::U8)]);
             pairs.push(Pair { old: b3, new: n2, edit: format!("{}: enum in an optional field: {} + add Option<String> at gap index 1", en, what), compatible: true });
+        }
+        // unit variants whose encoding is overridden at the variant level (the empty body must follow the
+        // variant's encoding, or the later struct / tuple variant cannot read it)
+        for (eenc, venc) in [(None, Enc::Map), (Some(Enc::Map), Enc::Array), (Some(Enc::Array), Enc::Map)] {
+            let vn = if venc == Enc::Map { "map" } else { "array" };
+            let old_e = b.push("G-compat", true, Kind::Enum(EnumS { enc: eenc, tag: None, index_only: false, variants: vec![VariantS { idx: 0, shape: Shape::Unit, enc: Some(venc), tag: None, fields: vec![] }, VariantS { idx: 1, shape: Shape::Tuple, enc: None, tag: None, fields: vec![fld(0, FTy::U8)] }] }));
+            let new_named = b.push("G-compat", true, Kind::Enum(EnumS { enc: eenc, tag: None, index_only: false, variants: vec![VariantS { idx: 0, shape: Shape::Named, enc: Some(venc), tag: None, fields: vec![fld(0, FTy::OptU8), fld(1, FTy::OptStr)] }, VariantS { idx: 1, shape: Shape::Tuple, enc: None, tag: None, fields: vec![fld(0, FTy::U8)] }] }));
+            let new_tuple = b.push("G-compat", true, Kind::Enum(EnumS { enc: eenc, tag: None, index_only: false, variants: vec![VariantS { idx: 0, shape: Shape::Tuple, enc: Some(venc), tag: None, fields: vec![fld(0, FTy::OptU8)] }, VariantS { idx: 1, shape: Shape::Tuple, enc: None, tag: None, fields: vec![fld(0, FTy::U8)] }] }));
+            let o = mk(b, vec![fld(0, FTy::OptNested(old_e)), fld(2, FTy::U8)]);
+            let n1 = mk(b, vec![fld(0, FTy::OptNested(new_named)), fld(2, FTy::U8)]);
+            let n2 = mk(b, vec![fld(0, FTy::OptNested(new_tuple)), fld(2, FTy::U8)]);
+            pairs.push(Pair { old: o, new: n1, edit: format!("{}: unit variant with #[cbor({})] override -> struct variant with optional fields", en, vn), compatible: true });
+            pairs.push(Pair { old: o, new: n2, edit: format!("{}: unit variant with #[cbor({})] override -> tuple variant with an optional field", en, vn), compatible: true });
+            // the enums themselves as mandatory fields (top-level use of the edited enum)
+            let om = mk(b, vec![fld(0, FTy::Nested(old_e)), fld(1, FTy::U8)]);
+            let nm = mk(b, vec![fld(0, FTy::Nested(new_named)), fld(1, FTy::U8)]);
+            pairs.push(Pair { old: om, new: nm, edit: format!("{}: mandatory enum field: unit variant with #[cbor({})] override -> struct variant with optional fields", en, vn), compatible: true });
         }
         let n = mk(b, vec![fld(0, FTy::OptNested(i1)), fld(2, FTy::U8)]);
         pairs.push(Pair { old: b4, new: n, edit: format!("{}: index_only enum in an optional field: add a variant", en), compatible: true });
